@@ -5,7 +5,10 @@ read back), write_query_markers_to_h5, serialize_markers on generated (tree, tab
 order, query gene order, min_markers) against Model/Markers.v; the declarative `spec_markers`
 (computed by the extracted model from the ORIGINAL table) against the genes found in the cache, in the
 table reported by serialize_markers and in the table returned by validate_marker_lookup; the error clauses
-(unknown marker / root without usable marker) judged on every ACCEPTED case.
+(unknown marker / root without usable marker) judged on every ACCEPTED case; the clause "an entry that needs
+no markers (a single-child parent, a key that is no parent of the tree) never makes the creation of the cache
+fail" (theorem c08_unneeded_entry_never_fails; the repaired finding F7) judged on every REJECTED case: the
+rejection must not name such a key, and emptying such an entry must not turn the rejection into a success.
 
 Reporting: a failure of the property's own statement is reported at once, with its input.  A case on
 which only the correspondence fails is kept back; at the end the property's statement is evaluated on
@@ -30,6 +33,7 @@ C_SPEC = 'c08-used-genes-differ-from-spec'
 C_SPEC_VALIDATE = 'c08-validated-genes-differ-from-spec'
 C_UNKNOWN = 'c08-unknown-marker-accepted'
 C_ROOT = 'c08-root-without-usable-marker-accepted'
+C_UNNEEDED = 'c08-entry-needing-no-markers-decides-cache-creation'
 N_FIRST = 5            # model calls per case in the first phase
 
 
@@ -257,6 +261,12 @@ def read_cache(path):
 AUG = "had too few markers in query set; augmenting with markers from "
 
 
+def unneeded_keys(case, children):
+    """Keys of the table that need no markers: everything but a parent of the tree with >= 2 children
+    (Markers.needs_markers = false)."""
+    return [k for k in case['table'] if children.get(k, 0) < 2]
+
+
 def run_impl(case, scratch, idx):
     """Everything the real code says about one case."""
     from cell_type_mapper.taxonomy.taxonomy_tree import TaxonomyTree
@@ -269,6 +279,10 @@ def run_impl(case, scratch, idx):
     table = dict(case['table'])
     table.update(case['noise_keys'])
     table_before = json.dumps(table, sort_keys=False)
+    obs['children'] = {'None': len(tree.children(None, None))}
+    for lv in tree.hierarchy[:-1]:
+        for nd in tree.nodes_at_level(lv):
+            obs['children'][f'{lv}/{nd}'] = len(tree.children(lv, nd))
     # (1) validate_marker_lookup
     with warnings.catch_warnings(record=True) as w:
         warnings.simplefilter('always')
@@ -303,6 +317,34 @@ def run_impl(case, scratch, idx):
                 obs['serialize'] = {'ok': True, 'table': mc.serialize_markers(marker_cache_path=path, taxonomy_tree=tree)}
             except Exception as e:
                 obs['serialize'] = {'ok': False, 'err': err_code(e), 'msg': f'{exc_class(e)}: {e}'[:300]}
+        else:
+            # (2') the rejected table again, with ONE entry that needs no markers emptied (the statement of
+            # c08_unneeded_entry_never_fails read backwards: if the emptied table is accepted, so must the listed one be,
+            # provided the entry lists reference genes only)
+            refset = set(case['ref'])
+            obs['unneeded_variant'] = None
+            tried = 0
+            for k in unneeded_keys(case, obs['children']):
+                if not case['table'][k] or any(g not in refset for g in case['table'][k]):
+                    continue
+                if tried >= 3:
+                    break
+                tried += 1
+                variant = dict(table)
+                variant[k] = []
+                path3 = pathlib.Path(scratch) / f'cache3_{idx}.h5'
+                try:
+                    mc.create_marker_cache_from_specified_markers(
+                        marker_lookup=variant, reference_gene_names=list(case['ref']),
+                        query_gene_names=list(case['query']), output_cache_path=path3, taxonomy_tree=tree,
+                        min_markers=case['min_markers'], log=CommandLog() if case['use_log'] else None)
+                    obs['unneeded_variant'] = k
+                except Exception:
+                    pass
+                if path3.exists():
+                    path3.unlink()
+                if obs['unneeded_variant'] is not None:
+                    break
         # (3) write_query_markers_to_h5 called directly on the raw table
         path2 = pathlib.Path(scratch) / f'cache2_{idx}.h5'
         try:
@@ -315,10 +357,6 @@ def run_impl(case, scratch, idx):
     for p in (path, path2):
         if p.exists():
             p.unlink()
-    obs['children'] = {'None': len(tree.children(None, None))}
-    for lv in tree.hierarchy[:-1]:
-        for nd in tree.nodes_at_level(lv):
-            obs['children'][f'{lv}/{nd}'] = len(tree.children(lv, nd))
     return obs
 
 
@@ -488,13 +526,19 @@ def check_case(ctx, case, obs, rn, res1, res2):
             demanded.append('a parent with >= 2 children is left without any usable gene')
         if oc['err'] == E_NO_OVERLAP:
             # legitimate only if the offending key is a parent with >= 2 children (min_markers = 0);
-            # otherwise the parent needs no markers: finding F7
+            # otherwise the key needs no markers and its entry must not abort anything: the defect F7
+            # (repaired in the package; this class fires on a checkout that lacks the repair)
             key = oc['msg'].split("parent node '", 1)[1].split("' were present", 1)[0]
             if obs['children'].get(key, 0) >= 2:
                 demanded.append('non-empty list of a branching parent without overlap (min_markers too small to patch)')
             else:
                 prop.append((F7_CLASS, f"entry '{key}' (children: {obs['children'].get(key, 'not a parent')}) "
                                        f"aborts the cache creation: {oc['msg']}"))
+        if obs.get('unneeded_variant') is not None:
+            k = obs['unneeded_variant']
+            prop.append((C_UNNEEDED, f"cache creation fails ({oc['msg']}) but succeeds once the entry of '{k}' "
+                                     f"(children: {obs['children'].get(k, 'not a parent')}; reference genes only: "
+                                     f"{case['table'][k]}) is emptied: an entry that needs no markers decides"))
         if not demanded and not prop and oc['err'] != 99:
             prop.append(('unexplained-error', oc['msg']))
         if oc['err'] == 99:
@@ -657,6 +701,13 @@ def book(ctx, c, o, res1):
             ctx.dist('patched_with', 'none' if not pw else ('root-only' if pw == ['None'] else
                                                            ('ancestors+root' if 'None' in pw else f'{len(pw)}-ancestor(s)')))
     ctx.dist('extra_keys', len(c['extra_keys']))
+    qset = set(c['query'])
+    for k in unneeded_keys(c, o['children']):
+        if c['table'][k] and not (set(c['table'][k]) & qset):
+            # the situation of the repaired finding F7: a listed entry that needs no markers and has no query gene
+            kind = ('single-child parent' if k in o['children'] else
+                    ('leaf-level key' if k.split('/', 1)[0] == c['tree']['hierarchy'][-1] else 'key outside the tree'))
+            ctx.dist('unneeded_entry_without_query_gene', f'{kind}: {outcome}')
     refset = set(c['ref'])
     if any(g not in refset for k in o['children'] for g in c['table'].get(k, [])):
         # a parent of the tree lists a gene that is no reference gene: rejected, or accepted under the documented excuse
@@ -708,6 +759,9 @@ def run(ctx):
                 'parent; independent reference and query gene orders; min_markers 0..6). non-trivial = >= 2 levels, '
                 '>= 1 parent with >= 2 children, >= 1 parent that needed fallback (non-empty patched_with), cache created')
     ctx.assumptions += [
+        'entries that need no markers (single-child parents, leaf-level keys, keys of levels/nodes that are not in the '
+        'tree) are generated with and without query genes (distribution unneeded_entry_without_query_gene); nothing is '
+        'excluded on account of the repaired finding F7',
         "level and node names contain no '/' (a key 'level/node' then identifies the pair)",
         "'metadata' and 'log' keys of the table are ignored by the code; they are passed to the implementation but not to the model",
         'duplicate gene names in the query or reference list occur in 8% of the cases (the last column wins, as in the dicts of the code)',
